@@ -458,6 +458,40 @@ pub fn run(args: &Args) -> i32 {
     rec.sub("small_product", json!({"evaluations": tl.evals}));
     total = total.merge(tl);
 
+    // (4) format specifications (width, fill, alignment, precision, sign, alternate): what they do is not part of C18, but
+    // every feature configuration must do the same (C19): rendered text folded into the digest
+    {
+        let mut f = Fnv::default();
+        let mut n = 0u64;
+        let samples: Vec<DateTime> = [(0i64, 0u32, 0i32), (1_700_000_000, 123_456_789, 19_800), (-62_135_596_801, 999_999_999, -1), (crate::cal::MAX_UNIX_TIME - (1 << 31) - 10, 5, i32::MAX), (crate::cal::MIN_UNIX_TIME + (1 << 31) + 10, 0, i32::MIN + 1)]
+            .iter()
+            .filter_map(|&(t, ns, off)| DateTime::from_timespec_and_local(t, ns, LocalTimeType::with_ut_offset(off).ok()?).ok())
+            .collect();
+        macro_rules! spec {
+            ($($s:literal),*) => {
+                for d in &samples {
+                    let u = UtcDateTime::from_timespec(d.unix_time(), d.nanoseconds()).ok();
+                    $(
+                        let mut b = Buf::new();
+                        let _ = write!(b, $s, d);
+                        f.bytes(b.as_bytes());
+                        f.bytes(b"|");
+                        if let Some(u) = &u {
+                            let mut b = Buf::new();
+                            let _ = write!(b, $s, u);
+                            f.bytes(b.as_bytes());
+                            f.bytes(b"|");
+                        }
+                        n += 1;
+                    )*
+                }
+            };
+        }
+        spec!("{}", "{:40}", "{:<40}", "{:>40}", "{:^41}", "{:*^50}", "{:.10}", "{:.0}", "{:40.10}", "{:>60.5}", "{:^33.33}", "{:+}", "{:#}", "{:010}", "{:1}", "{:.100}", "{:3.3}");
+        rec.sub("format_specifications", json!({"renderings": n, "digest": format!("{:016x}", f.0), "note": "C19 only: not judged, compared across feature configurations"}));
+        total.digest = total.digest.wrapping_add(f.0);
+    }
+
     rec.add(total.evals, total.nontrivial);
     rec.digest("fmt", total.digest);
     rec.set_rule("offsets: every offset in +-2 000 000, +-3700 around +-2^k and +-10^k, -61..+61 around every whole hour of the i32 range (thorough: every i32 offset); nanoseconds: every value < 200 000, step-997 lattice, windows at d x 10^k (thorough: all 10^9 values); years incl. +-10^k, +-2^k; every listed (offset) and (fields, ns, offset) case is rendered with Display into a stack buffer and read back by an independent strict reader; fields, ns, offset, 'Z' iff offset 0, ':SS' iff offset%60!=0 must match. non-trivial = offsets that are not whole minutes, need >2 hour digits or are negative and smaller than an hour; years outside 0..9999; second 60");
